@@ -69,8 +69,11 @@ def c3_exhaustive(out, model, nmax, stats):
 
 # ---------------------------------------------------------------- the property over the declared metamodel
 class Spec:
-    def __init__(self, out, case):
+    def __init__(self, out, case, intern=None):
         self.out, self.case = out, case
+        self.intern = intern or mio.Interner()
+        self.gens = {}          # class -> classifiers of its generic super types (-1: none), in order
+        self.frozen = set()     # (instance, declaration id): the default was edited after the instance looked at it
         self.supers = {}
         self.feats = {}
         self.ops = {}
@@ -89,6 +92,7 @@ class Spec:
                 continue
             seen.append(x)
             todo += self.supers.get(x, [])
+            todo += [g for g in self.gens.get(x, []) if g > 0]      # the second inheritance channel
         return seen
 
     def reaches(self, a, b):
@@ -109,6 +113,20 @@ class Spec:
         else:
             sig = {'property': 'C12', 'clause': clause, 'culprit': culprit, 'qualifiers': []}
         self.out.fail(sig, what, self.case)
+
+    def attr_default(self, d):
+        """The property: the declared default (its literal read in the attribute's type, else the declared value) if
+        there is one, else the default of the data type."""
+        tk = d['akind']
+        if d['lit'] is not None:
+            lit = d['lit']
+            v = {'EString': str, 'EInt': int, 'EIntegerObject': int, 'EDouble': float, 'EDoubleObject': float,
+                 'EBoolean': lambda x: x == 'true', 'EBooleanObject': lambda x: x == 'true'}[tk](lit)
+        elif d['dv'] is not None:
+            v = d['dv']
+        else:
+            v = mio.ATTR_TYPES[tk][0]
+        return mio.value_token(v, self.intern)
 
     def conforms(self, d, v):
         if v == -1:
@@ -152,9 +170,13 @@ class Spec:
             want = st[1]
         else:
             want = [2, 0] if d['many'] else [1, d['default']]
+        if (i, d['did']) in self.frozen:
+            return
         if obs != want:
+            typed = (f" [attribute over {d['akind']}, declared default_value {d['dv']!r}, defaultValueLiteral {d['lit']!r}; values as "
+                     f"tokens: -1 None, 900/901 False/True, 5000+k the k-th interned text {self.intern.t}]") if d.get('akind') else ''
             self.fail('default-or-multiplicity', f'{where}: {n!r} on instance {i} reads {obs}, declared '
-                      f'{"many" if d["many"] else "single"} with default {d["default"]} (expected {want})', stale)
+                      f'{"many" if d["many"] else "single"} with default {d["default"]} (expected {want}){typed}', stale)
 
     def touch(self, i, n):
         D = self.decls(self.inst[i], n)
@@ -184,6 +206,47 @@ class Spec:
                 if code != 0:
                     self.fail('edit-raises', f'{where}: raised (code {code})', culprit=k)
                     self.broken = True
+        elif k in ('addgen', 'retgen', 'rmgen', 'cleargens', 'movegen', 'annot', 'typar'):
+            gs = self.gens.setdefault(op[1], [])
+            if k == 'addgen':
+                gs.append(op[2])
+            elif k == 'retgen':
+                gs[op[2]] = op[3]
+            elif k == 'rmgen':
+                gs.pop(op[2])
+            elif k == 'cleargens':
+                del gs[:]
+            elif k == 'movegen':
+                self.gens.setdefault(op[3], []).append(gs.pop(op[2]))
+            if code != 0:
+                self.fail('edit-raises', f'{where}: raised (code {code})', culprit=k)
+                self.broken = True
+        elif k == 'addattr':
+            _, c, name, tkind, dk, how = op
+            self.did += 1
+            d = {'name': name, 'ftype': 0, 'many': False, 'did': self.did, 'akind': tkind,
+                 'dv': None if how.startswith('literal') else mio.declared_default(tkind, dk),
+                 'lit': mio.declared_literal(tkind, dk) if how.startswith('literal') else None}
+            d['default'] = self.attr_default(d)
+            self.feats[c].append(d)
+            if code != 0:
+                self.fail('edit-raises', f'{where}: raised (code {code})', culprit=k)
+                self.broken = True
+        elif k == 'setdefault':
+            _, c, name, dk, how = op
+            d = next(x for x in self.feats[c] if x['name'] == name)
+            if how == 'literal':
+                d['lit'] = mio.declared_literal(d['akind'], dk)
+            else:
+                d['dv'] = mio.declared_default(d['akind'], dk)
+            d['default'] = self.attr_default(d)
+            # an instance that has looked at the attribute holds a value of its own from then on
+            for (i, n), dids in self.touched.items():
+                if n == name and d['did'] in dids:
+                    self.frozen.add((i, d['did']))
+            if code != 0:
+                self.fail('edit-raises', f'{where}: raised (code {code})', culprit=k)
+                self.broken = True
         elif k == 'clearsupers':
             self.supers[op[1]] = []
             if code != 0:
@@ -270,6 +333,10 @@ class Spec:
         elif k in ('set', 'append'):
             i, n, v = op[1], op[2], op[3]
             D = self.decls(self.inst[i], n)
+            if len(D) == 1 and D[0].get('akind') and not self.opdecl(self.inst[i], n):
+                self.touch(i, n)            # writes into the typed attributes of the defaults family are not judged,
+                self.frozen.add((i, D[0]['did']))       # nor what the instance reads afterwards
+                return
             if len(D) != 1 or self.opdecl(self.inst[i], n):
                 self.touch(i, n)
                 self.stored.pop((i, n), None)
@@ -499,6 +566,202 @@ class BulkGen(Gen):
         return True
 
 
+GEN_MODES = ['before', 'before', 'after', 'extend']
+TYPAR_NAMES = ['T', 'x', 'y', 'f']      # also names of features / operations of the histories
+POP_VIAS = ['remove', 'pop', 'delitem']
+ATTR_HOWS = ['ctor', 'before', 'later', 'literal', 'literal-later']
+
+
+class GenericGen(Gen):
+    """Histories in which a share of the edits go through the second inheritance channel, eGenericSuperTypes (add with
+    the classifier set before / after, re-target, SET TO None, remove, pop, clear, move to another class), mixed with
+    the plain super types, plus edits of eAnnotations / eTypeParameters (which must not change anything)."""
+
+    def __init__(self, rng, maxc, nedits, share=0.4):
+        super().__init__(rng, maxc, nedits)
+        self.share = share
+
+    def valid(self, c, s):
+        return s != c and (s <= 0 or not self.sp.reaches(s, c))
+
+    def step(self, ncls):
+        r, sp = self.rng, self.sp
+        if r.random() >= self.share:
+            return super().step(ncls)
+        return self.generic_step()
+
+    def generic_step(self):
+        r, sp = self.rng, self.sp
+        nc = len(sp.supers)
+        holders = [k for k in range(1, nc + 1) if sp.gens.get(k)]
+        c = r.choice(holders) if (holders and r.random() < 0.6) else r.randint(1, nc)
+        gs = sp.gens.get(c, [])
+        cand = [s for s in range(1, nc + 1) if self.valid(c, s)]
+        x = r.random()
+        if x < 0.32:
+            y = r.random()
+            if y < 0.10:
+                s = -1
+            elif y < 0.14:
+                s = 0
+            elif cand:
+                s = r.choice(cand)
+            else:
+                return False
+            self.emit(['addgen', c, s, r.choice(GEN_MODES)])
+        elif x < 0.56:
+            if not gs:
+                return False
+            if r.random() < 0.45 or not cand:
+                s = -1
+            else:
+                s = r.choice(cand)
+            self.emit(['retgen', c, r.randrange(len(gs)), s])
+        elif x < 0.68:
+            if not gs:
+                return False
+            self.emit(['rmgen', c, r.randrange(len(gs)), r.choice(POP_VIAS)])
+        elif x < 0.74:
+            if not gs and r.random() < 0.7:
+                return False
+            self.emit(['cleargens', c, r.choice(CLEAR_VIAS)])
+        elif x < 0.80:
+            if not gs:
+                return False
+            idx = r.randrange(len(gs))
+            ds = [d for d in range(1, nc + 1) if d != c and (gs[idx] <= 0 or self.valid(d, gs[idx]))]
+            if not ds:
+                return False
+            self.emit(['movegen', c, idx, r.choice(ds)])
+        elif x < 0.90:
+            self.emit(['annot', c, r.choice(['add', 'add', 'rm', 'pop', 'clear'])])
+        else:
+            self.emit(['typar', c, r.choice(['add', 'add', 'rm']), r.choice(TYPAR_NAMES)])
+        return True
+
+
+class DefaultsGen(GenericGen):
+    """... and attributes over seven data types with a declared default that is absent, falsy or truthy, given at
+    construction or edited afterwards, read on instances created before and after, through both channels."""
+
+    def __init__(self, rng, maxc, nedits):
+        super().__init__(rng, maxc, nedits, share=0.12)
+
+    def emit(self, op):
+        if op[0] in ('set', 'append'):
+            D = self.sp.decls(self.sp.inst[op[1]], op[2])
+            if D and D[0].get('akind'):
+                op = ['get', op[1], op[2]]      # the typed attributes are only read
+        super().emit(op)
+
+    def step(self, ncls):
+        r, sp = self.rng, self.sp
+        if r.random() >= 0.4:
+            return super().step(ncls)
+        nc = len(sp.supers)
+        c = r.randint(1, nc)
+        typed = [(k, d) for k in range(1, nc + 1) for d in sp.feats[k] if d.get('akind')]
+        x = r.random()
+        if x < 0.45 or not typed:
+            free = [n for n in FEAT_NAMES if not any(d['name'] == n for d in sp.feats[c])]
+            if not free:
+                return False
+            self.emit(['addattr', c, r.choice(free), r.choice(list(mio.ATTR_TYPES)), r.choice(['none', 'falsy', 'falsy', 'truthy']),
+                       r.choice(ATTR_HOWS)])
+        elif x < 0.75:
+            k, d = r.choice(typed)
+            self.emit(['setdefault', k, d['name'], r.choice(['none', 'falsy', 'falsy', 'truthy']), r.choice(['value', 'value', 'literal'])])
+        else:
+            if not sp.inst:
+                return False
+            k, d = r.choice(typed)
+            seers = [i for i, ci in enumerate(sp.inst) if sp.reaches(ci, k)]
+            if not seers:
+                return False
+            self.emit(['get', r.choice(seers), d['name']])
+        return True
+
+
+def generic_systematic():
+    """A (x, f), B (y), C, D(C) with instances of each; C gets A as a generic super type (three ways); one edit of that
+    channel; instances created afterwards; an old, untouched instance of C is looked at; the final dump judges."""
+    out = []
+    base = [['newclass', []], ['newclass', []], ['newclass', []], ['newclass', [3]],
+            ['addfeat', 1, 'x', 0, 0, 5, 'append'], ['addop', 1, 'f', [], 'append'], ['addfeat', 2, 'y', 0, 1, 0, 'append'],
+            ['newinst', 1], ['newinst', 2], ['newinst', 3], ['newinst', 4]]
+    after = [['newinst', 3], ['newinst', 4], ['get', 2, 'x'], ['get', 5, 'y']]
+    edits = [[], [['retgen', 3, 0, -1]], [['retgen', 3, 0, 2]], [['retgen', 3, 0, -1], ['retgen', 3, 0, 2]],
+             [['retgen', 3, 0, -1], ['retgen', 3, 0, 1]], [['movegen', 3, 0, 4]], [['movegen', 3, 0, 2]],
+             [['addsuper', 3, 2, 'append'], ['retgen', 3, 0, -1]], [['addsuper', 3, 1, 'append'], ['retgen', 3, 0, -1]],
+             [['addsuper', 3, 1, 'append'], ['rmsuper', 3, 1]], [['addgen', 3, 1, 'before'], ['rmgen', 3, 0, 'remove']],
+             [['addgen', 3, 2, 'after'], ['retgen', 3, 0, -1]], [['addgen', 3, 2, 'extend'], ['rmgen', 3, 1, 'pop'], ['retgen', 3, 0, -1]],
+             [['addgen', 4, 1, 'before'], ['retgen', 3, 0, -1]], [['addgen', 4, 2, 'before'], ['retgen', 4, 0, -1], ['retgen', 3, 0, -1]],
+             [['typar', 3, 'add', 'x'], ['typar', 3, 'rm', 'x']], [['typar', 1, 'add', 'x'], ['typar', 1, 'add', 'f'], ['typar', 1, 'rm', 'f'], ['typar', 1, 'rm', 'x']],
+             [['annot', 1, 'add'], ['annot', 1, 'rm'], ['annot', 3, 'add'], ['annot', 3, 'add'], ['annot', 3, 'clear'], ['annot', 3, 'add'], ['annot', 3, 'pop']]]
+    edits += [[['rmgen', 3, 0, via]] for via in POP_VIAS] + [[['cleargens', 3, via]] for via in CLEAR_VIAS]
+    for mode in ('before', 'after', 'extend'):
+        for e in edits:
+            out.append(base + [['addgen', 3, 1, mode], ['newinst', 3]] + e + after)
+    # the generic type is attached empty and gets its classifier later; the class is created with a plain super type
+    out.append(base + [['addgen', 3, -1, 'before'], ['newinst', 3], ['retgen', 3, 0, 1]] + after)
+    out.append(base + [['addgen', 3, -1, 'before'], ['retgen', 3, 0, 1], ['newinst', 3], ['retgen', 3, 0, -1]] + after)
+    return out
+
+
+def defaults_systematic():
+    """Base, Sub(Base), G (generic super type Base) with instances of each; one attribute on Base for every data type
+    x declared default x way of giving it; read by an old and a new instance; the default edited; new instances."""
+    out = []
+    base = [['newclass', []], ['newclass', [1]], ['newclass', []], ['addgen', 3, 1, 'before'],
+            ['newinst', 1], ['newinst', 2], ['newinst', 3]]
+    dks = ['none', 'falsy', 'truthy']
+    k = 0
+    for tkind in mio.ATTR_TYPES:
+        for dk in dks:
+            for how in ATTR_HOWS:
+                k += 1
+                h = base + [['addattr', 1 + (k % 5 == 0), 'x', tkind, dk, how], ['newinst', 2], ['newinst', 3],
+                            ['get', 1, 'x'], ['get', 4, 'x']]
+                h += [['setdefault', 1 + (k % 5 == 0), 'x', dks[(k + 1) % 3], 'literal' if k % 4 == 0 else 'value'],
+                      ['newinst', 1 + (k % 5 == 0)], ['newinst', 2]]
+                if k % 3 == 0:
+                    h += [['setdefault', 1 + (k % 5 == 0), 'x', 'falsy', 'value'], ['newinst', 2]]
+                out.append(h)
+    return out
+
+
+def oracle_only_families(ctx, out, intern, stats):
+    """Histories with ops the Coq model does not have: implementation + oracle only (PRNG streams 'C12:generic',
+    'C12:defaults').  Run in this process; a linearisation replacement installed on the way is taken out again after
+    the history (nothing is compared with the model here)."""
+    thorough = ctx.tier == 'thorough'
+    fams = []
+    grng = common.rng_for(ctx.seed, 'C12:generic')
+    fams += [(h, 'generic', 'generic-systematic') for h in generic_systematic()]
+    for _ in range(12000 if thorough else 1200):
+        fams.append((GenericGen(grng, 5, grng.randint(4, 14 if thorough else 10)).history(), 'generic', 'generic-random'))
+    drng = common.rng_for(ctx.seed, 'C12:defaults')
+    fams += [(h, 'defaults', 'defaults-systematic') for h in defaults_systematic()]
+    for _ in range(6000 if thorough else 600):
+        fams.append((DefaultsGen(drng, 4, drng.randint(5, 14 if thorough else 10)).history(), 'defaults', 'defaults-random'))
+    for h, scen, section in fams:
+        case = {'section': section, 'scenario': scen, 'seed': ctx.seed, 'tier': ctx.tier, 'history': h, 'names': NAMES}
+        r = mio.run_impl(h, NAMES, intern)
+        if r['flag_after']:
+            restore_linearisation()
+            stats['oracle_only_flagged'] += 1
+        stats['oracle_only_histories'][scen] = stats['oracle_only_histories'].get(scen, 0) + 1
+        stats['ops'] += len(h)
+        for op in h:
+            stats['op_kinds'][op[0]] = stats['op_kinds'].get(op[0], 0) + 1
+        judge(out, h, NAMES, r['tokens'], r['per_op'], case, intern)
+        if r['isinstance_disagreements']:
+            out.fail({'property': 'C12', 'clause': 'isinstance-vs-EcoreUtils', 'culprit': 'isinstance', 'qualifiers': []},
+                     f'isinstance and EcoreUtils.isinstance disagree: {r["isinstance_disagreements"]}', case)
+        if section.endswith('random') and len(h) > 9 and not any(c.get('scenario') == scen for c in stats['samples']):
+            stats['samples'].append(case)
+
+
 def bulk_systematic():
     """The diamond A <- B, A <- C, (B, C) <- D with one feature per class and instances of every class created before;
     one bulk call on the super types of D or of B (every spelling), instances created after; the final dump judges."""
@@ -561,8 +824,8 @@ def count_records(history):
     return len(history)
 
 
-def judge(out, history, names, impl_tokens, per_op, case):
-    sp = Spec(out, case)
+def judge(out, history, names, impl_tokens, per_op, case, intern=None):
+    sp = Spec(out, case, intern)
     for idx, (op, res) in enumerate(zip(history, per_op)):
         sp.feed(idx, op, res)
     _, rest = split_records(impl_tokens, len(history))
@@ -632,7 +895,7 @@ def run(ctx, out):
     stats = {'c3_graphs': 0, 'c3_conflicts': 0, 'c3_nontrivial': 0, 'histories': 0, 'ops': 0, 'in_worker': 0,
              'flag_installed_in_worker': 0, 'started_with_flag': 0, 'samples': [], 'op_kinds': {}, 'outcomes': {},
              'classes_hist': {}, 'stale_cases': 0, 'sorted_fallback': 0, 'bulk_histories': 0, 'bulk_calls': 0,
-             'bulk_differs_from_sequence': 0}
+             'bulk_differs_from_sequence': 0, 'oracle_only_histories': {}, 'oracle_only_flagged': 0}
     c3_exhaustive(out, model, 5 if thorough else 4, stats)
 
     hists = [(h, 'systematic') for h in systematic()]
@@ -707,20 +970,26 @@ def run(ctx, out):
         if len(deferred) and len(stats['samples']) < 5:
             stats['samples'].append(dict(deferred[0]))
     model.close()
+    oracle_only_families(ctx, out, intern, stats)
     if mio.flag_installed():
         out.diff('Metasubinstance.mro is replaced in the checking process at the end of the run', {'global': True})
         restore_linearisation()
     stats['stale_cases'] = sum(1 for f in out.oracle_fails if f['signature'].get('clause') == 'feature-follows-edit')
     out.coverage.update({
-        'evaluations': stats['c3_graphs'] + stats['histories'],
-        'distinct_nontrivial': stats['c3_nontrivial'] + stats['histories'],
+        'evaluations': stats['c3_graphs'] + stats['histories'] + sum(stats['oracle_only_histories'].values()),
+        'distinct_nontrivial': stats['c3_nontrivial'] + stats['histories'] + sum(stats['oracle_only_histories'].values()),
         'rule': 'C3: every class graph in which class k (k <= %d) takes an ordered selection of earlier classes as bases, '
                 'compared with type.mro() class by class (nontrivial = linearisation longer than 3); histories: the '
                 'systematic diamond/order set plus seeded random edit histories (<= 5 classes, <= %d edits + final '
                 'instantiation), each run on model and implementation and dumped for every instance x name x class; '
                 'bulk family (own PRNG stream): the diamond with every spelling of a bulk removal / whole assignment / '
                 'pop / item replacement on eSuperTypes, eStructuralFeatures, eOperations, plus random histories in which '
-                '30%% of the edits are such calls (model side: the sequence of primitive edits the call stands for)'
+                '30%% of the edits are such calls (model side: the sequence of primitive edits the call stands for); '
+                'generic family (stream C12:generic, implementation + oracle only): eGenericSuperTypes as a second '
+                'inheritance channel (classifier set before/after, re-targeted, set to None, removed, popped, cleared, moved), '
+                'mixed with plain super types, annotations and type parameters edited on the way, matrix from the closure '
+                'over both channels; defaults family (stream C12:defaults): attributes over 7 data types x declared '
+                'default absent/falsy/truthy x 5 ways of declaring it, edited afterwards, read before and after'
                 % (5 if thorough else 4, 16 if thorough else 10),
         'traces_validated_against_impl': stats['histories'],
         'c3_graphs': stats['c3_graphs'], 'c3_conflicts': stats['c3_conflicts'],
@@ -730,6 +999,8 @@ def run(ctx, out):
         'histories_installing_the_global_replacement': stats['flag_installed_in_worker'],
         'histories_started_with_replacement_installed': stats['started_with_flag'],
         'oracle_failures_of_the_known_stale_slot_kind': stats['stale_cases'],
+        'implementation_and_oracle_only_histories': stats['oracle_only_histories'],
+        'of_which_installed_the_global_replacement': stats['oracle_only_flagged'],
         'bulk_call_histories': stats['bulk_histories'], 'bulk_calls': stats['bulk_calls'],
         'bulk_call_histories_where_the_implementation_parts_from_the_primitive_sequence': stats['bulk_differs_from_sequence'],
         'samples': stats['samples'][:5],
@@ -741,6 +1012,9 @@ def run(ctx, out):
         'attribute type EInt, reference types are classes of the graph; values None, small ints, instances',
         'renaming a feature and changing its bounds in place are not part of the edit alphabet; multiplicity changes are '
         'explored as remove + add under the same name',
+        'generic super types: classifiers are classes of the graph (no data types, no cycles over the two channels together); '
+        'type arguments are not used; a default edited after an instance has read the attribute is judged on the other '
+        'instances only (the instance keeps its own value holder); the typed attributes of the defaults family are only read',
         'CPython semantics assumed as modelled: C3 (validated here against type.mro), data descriptor > instance dict > '
         'class attribute, __bases__ assignment re-linearises the class and its subclasses or fails as a whole',
     ]
@@ -761,7 +1035,7 @@ def replay(ctx, rep):
     r = mio.run_impl(case['history'], case['names'], intern)
     for op, res in zip(case['history'], r['per_op']):
         print(op, '->', res)
-    judge(out, case['history'], case['names'], r['tokens'], r['per_op'], case)
+    judge(out, case['history'], case['names'], r['tokens'], r['per_op'], case, intern)
     for f in out.oracle_fails:
         print('FAILS:', f['what'])
     print('REPRODUCED' if out.oracle_fails else 'not reproduced')
